@@ -19,7 +19,7 @@ for d in sorted(glob.glob(f'/verif/seeded/{prop}-*')):
     titles.append(f"{t} [{f}]")
 extra = f"""- IMPORTANT: the template file demo/demo_test.go (which sets logging.Logger in init) will always be present next to your demo file; each of your demo files must compile and pass on the unmodified tree when it is the ONLY other test file in that directory (do not share helpers between demo1_test.go and demo2_test.go; use distinct name prefixes).
 - Keep every file you write and every single response SHORT: demos under 150 lines, no long pasted outputs (pipe test output through `tail -5`). Write notes last.
-- This is round {wave}: {len(titles)} seeded changes for this property already exist and are all detected by an existing monitoring harness that runs randomized model-based workloads with reference models and crash/schedule exploration. Yours must use DIFFERENT sites and mechanisms. Look in places the earlier rounds did not touch: helpers and lower layers the property's mechanism depends on (node stores and their layering, clone/encode/decode helpers, hashing/memo fields, change collectors, batch/commit plumbing, locks, capacity/eviction arithmetic), state carried across calls (a memo or buffer that is reused, a flag not reset on an error path), and behaviour that differs by configuration (store type, collapse level, version/origin, debug switches, sizes at or just past a threshold). The damage may be silent and surface only later or through a different API.""" + (""" In this round prefer the API boundary and failure handling: arguments or results that alias internal state (buffers, slices, node objects, maps handed in or out), objects re-used after Commit/Rollback/Close/Save, error paths and early returns that leave partial state behind or skip a cleanup, retries after a failed call, two entry points that are rarely combined (e.g. sync + merge, snapshot + update, commit + concurrent read through another handle), and boundary values of counters/capacities.""" if int(wave) == 5 else "") + (""" In this round prefer order and repetition: the same call made twice or in an unusual order (Commit/Save/Prune/Rollback/garbage collection/merge repeated, skipped, or issued on an empty or unchanged object), long-lived objects used across many rounds or versions, the interplay of two subsystems (node cache inside the trie, change collector and layered stores, pruning and saving, snapshots and live updates, loggers derived from loggers), and exact boundaries (a count that equals a capacity or batch size, the first and last element, version 0 or very large versions).""" if int(wave) == 6 else "") + (""" In this round prefer shared plumbing and contracts: helpers used by several mechanisms (hashing, hex/nibble conversion, clone/copy helpers, error values and how callers match them with errors.Is or ==, constants such as batch sizes, capacities and size limits), return values and error codes of rarely failing calls that are ignored or swallowed, conditions that are almost always true (so the else branch is almost never run), and behaviour that depends on object identity rather than value (pointer comparison, map keys built from slices, shared zero values).""" if int(wave) == 7 else "") + (""" In this round prefer edge shapes and conversions: code taken only for empty, single-element or maximal inputs, nil versus empty slices and zero values, conversions between representations (hex / bytes / strings, nibbles / bytes, signed / unsigned, msgpack / cbor encodings), loops whose first or last iteration is special, and whether an object is still usable after one of its calls returned an error.""" if int(wave) >= 8 else "") + """ Existing ones: """ + " || ".join(f"({i+1}) {t}" for i, t in enumerate(titles)) + "\n"
+- This is round {wave}: {len(titles)} seeded changes for this property already exist and are all detected by an existing monitoring harness that runs randomized model-based workloads with reference models and crash/schedule exploration. Yours must use DIFFERENT sites and mechanisms. Look in places the earlier rounds did not touch: helpers and lower layers the property's mechanism depends on (node stores and their layering, clone/encode/decode helpers, hashing/memo fields, change collectors, batch/commit plumbing, locks, capacity/eviction arithmetic), state carried across calls (a memo or buffer that is reused, a flag not reset on an error path), and behaviour that differs by configuration (store type, collapse level, version/origin, debug switches, sizes at or just past a threshold). The damage may be silent and surface only later or through a different API.""" + (""" In this round prefer the API boundary and failure handling: arguments or results that alias internal state (buffers, slices, node objects, maps handed in or out), objects re-used after Commit/Rollback/Close/Save, error paths and early returns that leave partial state behind or skip a cleanup, retries after a failed call, two entry points that are rarely combined (e.g. sync + merge, snapshot + update, commit + concurrent read through another handle), and boundary values of counters/capacities.""" if int(wave) == 5 else "") + (""" In this round prefer order and repetition: the same call made twice or in an unusual order (Commit/Save/Prune/Rollback/garbage collection/merge repeated, skipped, or issued on an empty or unchanged object), long-lived objects used across many rounds or versions, the interplay of two subsystems (node cache inside the trie, change collector and layered stores, pruning and saving, snapshots and live updates, loggers derived from loggers), and exact boundaries (a count that equals a capacity or batch size, the first and last element, version 0 or very large versions).""" if int(wave) == 6 else "") + (""" In this round prefer shared plumbing and contracts: helpers used by several mechanisms (hashing, hex/nibble conversion, clone/copy helpers, error values and how callers match them with errors.Is or ==, constants such as batch sizes, capacities and size limits), return values and error codes of rarely failing calls that are ignored or swallowed, conditions that are almost always true (so the else branch is almost never run), and behaviour that depends on object identity rather than value (pointer comparison, map keys built from slices, shared zero values).""" if int(wave) == 7 else "") + (""" In this round prefer edge shapes and conversions: code taken only for empty, single-element or maximal inputs, nil versus empty slices and zero values, conversions between representations (hex / bytes / strings, nibbles / bytes, signed / unsigned, msgpack / cbor encodings), loops whose first or last iteration is special, and whether an object is still usable after one of its calls returned an error.""" if int(wave) == 8 else "") + (""" In this round prefer performance shortcuts and hidden sharing: caches, memo fields, pooled or re-used buffers, batching, fast paths and early exits added because 'the common case does not need the full work' - a shortcut whose precondition is almost always true; and state shared between objects that look independent (two tries on one store, a view and its source, two objects from one constructor, loggers derived from one core, a result that aliases an argument).""" if int(wave) >= 9 else "") + """ Existing ones: """ + " || ".join(f"({i+1}) {t}" for i, t in enumerate(titles)) + "\n"
 s = tmpl.replace('@PROP@', ptxt).replace('@ID@', ident)
 marker = "The property under study:"
 s = s.replace(marker, extra + "\n" + marker, 1)
